@@ -22,8 +22,9 @@ THEOREMS = [
     "Ymq.C03Squfof.isqrt_total",
     "Ymq.C03Squfof.squfof_seed_irrelevant",
     "Ymq.C03Squfof.squfof_sound",
-    "Ymq.C03Squfof.squfof_proper",
     "Ymq.C03Squfof.squfof_exit",
+    "Ymq.C03Squfof.squfof_uses_exit",
+    "Ymq.C03Squfof.squfof_proper",
     "Ymq.C03Squfof.attempt_panic_iff",
     "Ymq.C03Squfof.squfof_panic_iff",
     "Ymq.C03Squfof.squfof_no_panic_partial",
@@ -31,6 +32,7 @@ THEOREMS = [
     "Ymq.C03Squfof.squfof_panics_on_2",
     "Ymq.C03Squfof.squfof_panics_on_small_primes",
     "Ymq.C03Squfof.squfof_panics_on_50",
+    "Ymq.C03Squfof.squfof_panics_on_6000163058",
 ]
 HYPOTHESES = ["SeedOK seed: the f64 seed `(m as f64).sqrt() as u64` of squfof::isqrt is within 1 of the floor square root for 4 <= m < 2^64 "
               "(IEEE-754 fact, not provable without a float model; checked by the `squfof_seed` O stream on squares, squares +- 1, 2^k +- 1, random)"]
